@@ -238,7 +238,20 @@ fn ib_cfg() -> LinkCfg {
     c
 }
 
+/// The case list; every second case is rendered with all TDT status flags set (transmission timeout, lane starts
+/// violation, the three timeouts): they are no protocol violations and must not change where a frame ends.
 fn cases(tier: Tier) -> Vec<Case> {
+    let mut v = cases_plain(tier);
+    for (i, c) in v.iter_mut().enumerate() {
+        if i % 2 == 1 {
+            c.cfg.tdt_status = 0b1_1111;
+            c.label = format!("[TDT status flags set] {}", c.label);
+        }
+    }
+    v
+}
+
+fn cases_plain(tier: Tier) -> Vec<Case> {
     let mut v = Vec::new();
     let none = BTreeSet::new();
     let ha = alpide::hit_alphabet();
@@ -601,7 +614,7 @@ pub fn run(tier: Tier) -> i32 {
         }
     }
     // hit-content invariance of the readout-flag counters and of the verdict: group the hit cases
-    let hit_cases: Vec<&Case> = cs.iter().filter(|c| c.label.starts_with("IB hits")).collect();
+    let hit_cases: Vec<&Case> = cs.iter().filter(|c| c.label.trim_start_matches("[TDT status flags set] ").starts_with("IB hits")).collect();
     let stats = par_map(&hit_cases, |_, c| {
         let b = build(&c.cfg, &c.frames);
         let o = observe(&c.key, &b);
@@ -623,7 +636,7 @@ pub fn run(tier: Tier) -> i32 {
     let cli_cases: Vec<&Case> = cs
         .iter()
         .enumerate()
-        .filter(|(i, c)| c.frames.len() == 1 && c.key == stave_key() && c.want[0].is_some() && (i % 7 == 0 || c.label.starts_with("IB one lane") || c.label.starts_with("IB chip id") || c.label.starts_with("layer")))
+        .filter(|(i, c)| c.frames.len() == 1 && c.key == stave_key() && c.want[0].is_some() && (i % 7 == 0 || { let l = c.label.trim_start_matches("[TDT status flags set] "); l.starts_with("IB one lane") || l.starts_with("IB chip id") || l.starts_with("layer") }))
         .map(|(_, c)| c)
         .collect();
     let cli_res = par_map(&cli_cases, |_, c| {
